@@ -37,3 +37,7 @@ let () = register "klaepremises" (fun () ->
 let () = register "kmpepremises" (fun () ->
   let m = e_kmpe_inst () in let order = next_list next_n in
   print_endline (if kmpe_premises_b m order then "1" else "0"))
+(* the same encoders compared with the implementation's LP by the verified checker LinEquiv.milp_equiv_b
+   (the given-weights variants are the same commands: e_given is part of the instance) *)
+let () = register "klae_eq" (fun () -> let m = encode_klae (e_err_inst ()) in equiv_report m)
+let () = register "kmpe_eq" (fun () -> let m = encode_kmpe (e_kmpe_inst ()) in equiv_report m)
